@@ -436,6 +436,8 @@ fn row_menu() -> Vec<[f32; 4]> {
         [0.1, 0.2, 0.3, 0.4],
         [-7.0, -6.5, 10.0, 2.0],
         [1.0e-3, 0.0, -1.0e-3, 5.0e-4],
+        // a large common offset (2^20) over a small range: scaling before subtracting the row offset cancels catastrophically
+        [1048576.0, 1048576.5, 1048577.0, 1048578.0],
     ]
 }
 
@@ -505,9 +507,9 @@ pub fn run(ctx: &mut Ctx, rep: &mut Report) {
     if ctx.wants("menu") {
         rep.space(
             "menu",
-            "product: all 7^M DNA matrices built from a 7-row menu (incl. rows whose byte image is x.5, so that already M=2 pushes the consensus sum past 255), M in 1..=4 (thorough 1..=5), \
+            "product: all 8^M DNA matrices built from an 8-row menu (incl. rows whose byte image is x.5, so that already M=2 pushes the consensus sum past 255, and a row with a 2^20 common offset), M in 1..=4 (thorough 1..=5), \
              x wildcard column {-inf, row minimum - 1, row mean, above the row maximum} x 14 kernels {generic U16/U32, sse2 U16/U32, avx2 saturating, dispatcher arms, scalar DiscreteMatrix::score_position; generic / avx2 / dispatcher arms block by block through score_rows_into on a reused buffer} \
-             on a de Bruijn word containing EVERY 5^M window (wildcard included); oracle: u8 >= scale(real) at every position and, for every attainable threshold, real>=t => u8>=scale(t); the PRE-FILTER as the scanner applies it, for {generic, sse2, avx2, dispatcher arms} on row blocks {all, 0..1, 1..a, a..R} of a reused buffer: Maximum<u8>::max of the block >= the largest byte image in the block, and Threshold<u8>::threshold(block, scale(t)) selects every position with real >= t (<= 16 attainable thresholds); \
+             on a de Bruijn word containing EVERY 5^M window (wildcard included) and on windows of it of length M and M+1 (sequence exactly as long as the motif); oracle: u8 >= scale(real) at every position and, for every attainable threshold, real>=t => u8>=scale(t); the PRE-FILTER as the scanner applies it, for {generic, sse2, avx2, dispatcher arms} on row blocks {all, 0..1, 1..a, a..R} of a reused buffer: Maximum<u8>::max of the block >= the largest byte image in the block, and Threshold<u8>::threshold(block, scale(t)) selects every position with real >= t (<= 16 attainable thresholds); \
              evaluations = kernel runs; non-trivial = some window has a finite real score",
         );
         for m in 1..=(if ctx.quick() { 4usize } else { 5 }) {
@@ -530,6 +532,23 @@ pub fn run(ctx: &mut Ctx, rep: &mut Report) {
                             v
                         })
                         .collect();
+                    // ... and on sequences exactly as long as the motif / one symbol longer (the first windows of the word)
+                    for extra in 0..2usize {
+                        for start in [0usize, 7, 19] {
+                            if start + m + extra > seq.len() {
+                                continue;
+                            }
+                            let short = Case { alpha: "dna", matrix: matrix.clone(), seq: seq[start..start + m + extra].to_vec(), origin: format!("menu M={} matrix#{} wildcard-kind={} L=M+{}", m, mi, wk, extra) };
+                            let (e, nt, fails) = check_case(&short, &kd);
+                            report_prefilter(&short, rep);
+                            for _ in 0..e {
+                                rep.eval_distinct(nt);
+                            }
+                            for (sig, msg, k) in fails {
+                                rep.violation(format!("C08 dna {} L=M+{} {}", k.map(|k| k.name()).unwrap_or("-".into()), extra, sig), msg, || short.json(k));
+                            }
+                        }
+                    }
                     let case = Case { alpha: "dna", matrix, seq: seq.clone(), origin: format!("menu M={} matrix#{} wildcard-kind={}", m, mi, wk) };
                     let (e, nt, fails) = check_case(&case, &kd);
                     report_prefilter(&case, rep);
